@@ -253,6 +253,7 @@ pub fn run(tier: Tier, seed: u64) -> i32 {
         for (i, &(nn, kk, n)) in args.iter().enumerate() {
             let tx = tx.clone();
             std::thread::Builder::new().stack_size(256 << 10).spawn(move || {
+                crate::exec::set_managed(true);
                 let r = catch_unwind(AssertUnwindSafe(|| in_subject(|| Hypergeometric::new(nn, kk, n).map(|_| ()).map_err(|e| format!("{:?}", e))))).map_err(|_| crate::exec::last_panic());
                 let _ = tx.send((i, r));
             }).expect("spawn");
@@ -302,6 +303,7 @@ pub fn run(tier: Tier, seed: u64) -> i32 {
 fn with_timeout<T: Send + 'static>(d: std::time::Duration, f: impl FnOnce() -> T + Send + 'static) -> Option<T> {
     let (tx, rx) = std::sync::mpsc::channel();
     std::thread::spawn(move || {
+        crate::exec::set_managed(true);
         let _ = tx.send(f());
     });
     rx.recv_timeout(d).ok()
